@@ -1797,6 +1797,13 @@ func genEncoding(repo string) (string, error) {
 	}
 	out.WriteString(immediatesLean(imms))
 
+	// ---- function-builder creation sites
+	bsites, raising, nilSafe, err := builderSites(comp)
+	if err != nil {
+		return "", err
+	}
+	out.WriteString(builderSitesLean(bsites, raising, nilSafe))
+
 	// ---- driver table
 	out.WriteString("/-! ### untyped wrappers for the correspondence driver -/\n")
 	for _, f := range funcs {
